@@ -3,6 +3,7 @@ import inspect
 from symx.api import H
 from spec import registry as REG
 from harness import c08 as C8
+from harness import c04 as C4
 
 PROPERTY = 'C17'
 ASSUMPTIONS = [
@@ -316,6 +317,9 @@ HARNESSES = [
                                                          ((64, True, True), (64, False, True), (64, True, False), (64, False, False), (32, True, False), (32, False, False))],
       expect=('ok',),
       desc='the relocation type code that gets named is the one the entry encodes: r_info split per class, MIPS64 packed layout in both byte orders (harness shared with C08)'),
+    H('h17_4_form_codes_in_entries', C4.h_forms, lambda tier: [c for c in C4._form_instances(tier) if c['via'] in ('indirect', 'indirect2') and (c['form'] >= 0x80 or c['form'] in (0x0b, 0x0e, 0x17, 0x1a))],
+      expect=('ok',),
+      desc='form codes stored in entries (after DW_FORM_indirect, a ULEB128: the two-byte GNU vendor forms included) are reported under their registry names (harness shared with C04)'),
     H('h17_2_tables', h_tables, lambda tier: [dict(table=i) for i in range(0, 90)], expect=('ok',),
       desc='every exported (name, value) pair whose name a registry defines: value equals a registry value (ground obligations)'),
 ]
